@@ -449,6 +449,33 @@ def error_count_cases(binfo, scratch):
     return out
 
 
+def mixed_success_cases(binfo, scratch):
+    """No injected fault: one file of the invocation is rejected, the other compiles; the rejected
+    unit's outputs are not written, so the exit status must not be 0 - whichever comes first."""
+    out = []
+    bad = b'#include "axllib"\nundefinedname1;\n'
+    for order in (("bad.as", "good.as"), ("good.as", "bad.as")):
+        w = scratch.new()
+        fl = ["-Fc", "-Ffm", "-Fao"]
+        r = worlds.compile_world(binfo, w, {"bad.as": bad, "good.as": worlds.HELLO}, fl, list(order), cpu=60)
+        vsim.cleanup_world(w)
+        desc = "aldor %s %s (bad.as has one error)" % (" ".join(fl), " ".join(order))
+        verdict, detail = None, ""
+        fc = worlds.fault_class(r)
+        if fc:
+            verdict, detail = fc, (r.out + r.err)[-200:].decode("latin-1", "replace")
+        elif r.rc == 0:
+            missing = [x for x in ("bad.c", "bad.fm", "bad.ao", "good.c", "good.fm", "good.ao") if not r.files.get(x)]
+            if missing:
+                verdict, detail = "exit0-missing-output", "exit 0 but %s not written" % ", ".join(missing)
+        elif not worlds.has_diag(r):
+            verdict, detail = "silent-refusal", "exit %r without a diagnostic" % r.rc
+        elif not r.files.get("good.c") and order[0] == "good.as":
+            pass	# (stopping at the first error is allowed; nothing to check)
+        out.append((verdict, detail, desc, "mixedsuccess-" + order[0][:-3]))
+    return out
+
+
 def odd_name_cases(binfo, scratch):
     """No injected fault: legal but unusual source file names; exit 0 must leave the outputs
     under the name the compiler derives from the source name."""
@@ -489,7 +516,7 @@ def main(argv):
 
     with vsim.Scratch("c18") as scratch:
         if replay and "other_directory" in json.load(open(replay)):
-            od = [x for x in other_directory_cases(binfo, scratch) + explicit_name_cases(binfo, scratch) + error_count_cases(binfo, scratch) + odd_name_cases(binfo, scratch) + mixed_input_cases(binfo, scratch) + outdir_cases(binfo, scratch) + split_name_cases(binfo, scratch) if x[3] == json.load(open(replay))["other_directory"]]
+            od = [x for x in other_directory_cases(binfo, scratch) + explicit_name_cases(binfo, scratch) + error_count_cases(binfo, scratch) + odd_name_cases(binfo, scratch) + mixed_input_cases(binfo, scratch) + outdir_cases(binfo, scratch) + split_name_cases(binfo, scratch) + mixed_success_cases(binfo, scratch) if x[3] == json.load(open(replay))["other_directory"]]
             vsim.say("replay: %s" % [(v, d) for v, d, _, _ in od])
             if any(v for v, _, _, _ in od):
                 vsim.say("VIOLATION property=%s replay=%s" % (PID, replay))
@@ -662,11 +689,11 @@ def main(argv):
             out.violations.append({"key": key, "cls": v2, "detail": d2, "replay": rp})
 
         # ---- saved forms in another directory (independent expectation, no fault) -----------
-        od = other_directory_cases(binfo, scratch) + explicit_name_cases(binfo, scratch) + error_count_cases(binfo, scratch) + odd_name_cases(binfo, scratch) + mixed_input_cases(binfo, scratch) + outdir_cases(binfo, scratch) + split_name_cases(binfo, scratch)
+        od = other_directory_cases(binfo, scratch) + explicit_name_cases(binfo, scratch) + error_count_cases(binfo, scratch) + odd_name_cases(binfo, scratch) + mixed_input_cases(binfo, scratch) + outdir_cases(binfo, scratch) + split_name_cases(binfo, scratch) + mixed_success_cases(binfo, scratch)
         for verdict, detail, desc, kind in od:
             if not verdict:
                 continue
-            key = "%s:%s:%s" % (verdict, "explicit-name" if kind.startswith("name-") else "error-count" if kind.startswith("errors-") else "source-name" if kind.startswith("srcname-") else "mixed-inputs" if kind.startswith("mixed-") else "output-directory" if kind.startswith("outdir-") else "split-c-names" if kind.startswith("splitname-") else "other-directory-input", kind)
+            key = "%s:%s:%s" % (verdict, "explicit-name" if kind.startswith("name-") else "error-count" if kind.startswith("errors-") else "source-name" if kind.startswith("srcname-") else "mixed-inputs" if kind.startswith("mixed-") else "output-directory" if kind.startswith("outdir-") else "split-c-names" if kind.startswith("splitname-") else "mixed-success" if kind.startswith("mixedsuccess-") else "other-directory-input", kind)
             text = out.classify(key)
             if text is not None:
                 out.known.append({"key": key, "text": text})
